@@ -119,6 +119,11 @@ def escChar (c : Nat) : Option Nat :=
   else if c == 110 then some 10 else if c == 114 then some 13 else if c == 116 then some 9
   else if c == 34 then some 34 else if c == 92 then some 92 else none
 
+/-- prepend one decoded character to the result of decoding the rest -/
+def consOk (x : Nat) : Except StrErr (List Nat) → Except StrErr (List Nat)
+  | .ok t => .ok (x :: t)
+  | .error e => .error e
+
 /-- `toml.decoder._unescape` (and the preceding reserved-escape check) on the whole quoted value -/
 def unescape : List Nat → Except StrErr (List Nat)
   | [] => .ok []
@@ -128,15 +133,9 @@ def unescape : List Nat → Except StrErr (List Nat)
       | [] => .ok [92]
       | c :: r =>
         match escChar c with
-        | some x =>
-          match unescape r with
-          | .ok t => .ok (x :: t)
-          | .error e => .error e
+        | some x => consOk x (unescape r)
         | none => if c == 117 || c == 85 then .error .outOfModel else .error .reserved
-    else
-      match unescape l with
-      | .ok t => .ok (a :: t)
-      | .error e => .error e
+    else consOk a (unescape l)
 
 /-- tail of `load_value` for strings:
 `if len(v) > 1 and v[1] == quotechar and (len(v) < 3 or v[1] == v[2]): v = v[2:-2]` then `v[1:-1]` -/
@@ -149,14 +148,16 @@ def finish (v : List Nat) : List Nat :=
   let v := if looksTriple v then ((v.drop 2).dropLast).dropLast else v
   (v.drop 1).dropLast
 
-/-- reading a basic string value -/
+/-- reading a basic string value (a value is one iff it starts with `"`) -/
 def loadStr (v : List Nat) : Except StrErr (List Nat) :=
   match v with
-  | 34 :: _ =>
-    match unescape v with
-    | .ok u => .ok (finish u)
-    | .error e => .error e
-  | _ => .error .notAString
+  | [] => .error .notAString
+  | q :: _ =>
+    if q == 34 then
+      match unescape v with
+      | .ok u => .ok (finish u)
+      | .error e => .error e
+    else .error .notAString
 
 /-! ### structured level -/
 
@@ -207,14 +208,26 @@ inductive TVal where
   | datetime (t : Ts)
   deriving DecidableEq, Repr
 
+/-- the keys of the `[training]` / `[tuning]` tables -/
+inductive Key where
+  | timestamp
+  | ordinal
+  | score
+  deriving DecidableEq, Repr
+
+def Key.name : Key → String
+  | .timestamp => "timestamp"
+  | .ordinal => "ordinal"
+  | .score => "score"
+
 structure Doc where
   states : List Nat
-  training : List (String × TVal)
-  tuning : List (String × TVal)
+  training : List (Key × TVal)
+  tuning : List (Key × TVal)
   deriving DecidableEq, Repr
 
 /-- the writer skips `None` values -/
-def sect (kvs : List (String × Option TVal)) : List (String × TVal) :=
+def sect (kvs : List (Key × Option TVal)) : List (Key × TVal) :=
   kvs.filterMap (fun kv => kv.2.map (fun v => (kv.1, v)))
 
 /-- `TomlEncoder.dump_value` by Python type -/
@@ -235,31 +248,33 @@ def dumpNum : Num → TVal
   | .int i => .int i
   | .float b => .float b
 
+/-- the value written under `ordinal` (nothing for `None`) -/
+def dumpOrd? : Option Ordinal → Except StrErr (Option TVal)
+  | none => .ok none
+  | some o =>
+    match dumpOrdinal o with
+    | .ok v => .ok (some v)
+    | .error e => .error e
+
 /-- `Tag.dumps` -/
 def dumps (t : Tag) : Except StrErr Doc :=
-  let ord : Except StrErr (Option TVal) :=
-    match t.ordinal with
-    | none => .ok none
-    | some o =>
-      match dumpOrdinal o with
-      | .ok v => .ok (some v)
-      | .error e => .error e
-  match ord with
+  match dumpOrd? t.ordinal with
   | .error e => .error e
   | .ok ov =>
     .ok { states := t.states
-          training := sect [("timestamp", t.trainTs.map .datetime), ("ordinal", ov)]
-          tuning := sect [("timestamp", t.tuneTs.map .datetime), ("score", t.score.map dumpNum)] }
+          training := sect [(.timestamp, t.trainTs.map .datetime), (.ordinal, ov)]
+          tuning := sect [(.timestamp, t.tuneTs.map .datetime), (.score, t.score.map dumpNum)] }
 
 inductive LoadErr where
-  | keyError (k : String)
+  | keyError (k : Key)
   | str (e : StrErr)
-  | badType (k : String)
+  | badType (k : Key)
   deriving DecidableEq, Repr
 
-def lookup (k : String) : List (String × TVal) → Option TVal
+/-- `dict.get` -/
+def lookup (k : Key) : List (Key × TVal) → Option TVal
   | [] => none
-  | (k', v) :: r => if k' == k then some v else lookup k r
+  | (k', v) :: r => if k' = k then some v else lookup k r
 
 def loadOrdinal : TVal → Except LoadErr Ordinal
   | .int i => .ok (.int i)
@@ -272,43 +287,44 @@ def loadOrdinal : TVal → Except LoadErr Ordinal
     | .ok s => .ok (.str s)
     | .error e => .error (.str e)
 
-def loadTs (k : String) : Option TVal → Except LoadErr (Option Ts)
+/-- what `.get('ordinal')` gives -/
+def loadOrd? : Option TVal → Except LoadErr (Option Ordinal)
+  | none => .ok none
+  | some v =>
+    match loadOrdinal v with
+    | .ok o => .ok (some o)
+    | .error e => .error e
+
+def loadTs : Option TVal → Except LoadErr (Option Ts)
   | none => .ok none
   | some (.datetime t) => .ok (some t)
-  | some _ => .error (.badType k)
+  | some _ => .error (.badType .timestamp)
 
 def loadScore : Option TVal → Except LoadErr (Option Num)
   | none => .ok none
   | some (.int i) => .ok (some (.int i))
   | some (.float b) => .ok (some (.float b))
-  | some _ => .error (.badType "score")
+  | some _ => .error (.badType .score)
 
 /-- `Tag.loads` (repaired: `.get('timestamp')`) -/
 def loads (d : Doc) : Except LoadErr Tag :=
-  match loadTs "timestamp" (lookup "timestamp" d.training) with
+  match loadTs (lookup .timestamp d.training) with
   | .error e => .error e
   | .ok trainTs =>
-    let ord : Except LoadErr (Option Ordinal) :=
-      match lookup "ordinal" d.training with
-      | none => .ok none
-      | some v =>
-        match loadOrdinal v with
-        | .ok o => .ok (some o)
-        | .error e => .error e
-    match ord with
+    match loadOrd? (lookup .ordinal d.training) with
     | .error e => .error e
     | .ok ordinal =>
-      match loadTs "timestamp" (lookup "timestamp" d.tuning) with
+      match loadTs (lookup .timestamp d.tuning) with
       | .error e => .error e
       | .ok tuneTs =>
-        match loadScore (lookup "score" d.tuning) with
+        match loadScore (lookup .score d.tuning) with
         | .error e => .error e
         | .ok score => .ok { trainTs, ordinal, tuneTs, score, states := d.states }
 
 /-- `Tag.loads` before the repair: `meta['training']['timestamp']` -/
 def loadsStrict (d : Doc) : Except LoadErr Tag :=
-  match lookup "timestamp" d.training with
-  | none => .error (.keyError "timestamp")
+  match lookup .timestamp d.training with
+  | none => .error (.keyError .timestamp)
   | some _ => loads d
 
 end ForML.Tag
